@@ -18,6 +18,7 @@ type DMTTerm struct {
 	Field  int  `json:"field"` // index into fields + [unknown, ""]
 	Term   int  `json:"term"`  // index into that field's terms
 	Absent bool `json:"absent,omitempty"`
+	NilKey bool `json:"nil_key,omitempty"` // an empty term is passed as a nil slice instead of an empty one
 }
 
 type DMTCase struct {
@@ -44,12 +45,16 @@ func genDMTCase(t *rapid.T, prop string) *Case {
 	nl := rapid.IntRange(1, 3).Draw(t, "nlists")
 	for i := 0; i < nl; i++ {
 		n := rapid.IntRange(0, 12).Draw(t, "nterms")
+		if rapid.IntRange(0, 9).Draw(t, "longlist") == 0 {
+			n = rapid.SampledFrom([]int{63, 64, 65, 100, 300}).Draw(t, "nlong")
+		}
 		var list []DMTTerm
 		for j := 0; j < n; j++ {
 			list = append(list, DMTTerm{
 				Field:  rapid.IntRange(0, 8).Draw(t, "field"),
 				Term:   rapid.IntRange(0, 12).Draw(t, "term"),
 				Absent: rapid.IntRange(0, 5).Draw(t, "absent") == 0,
+				NilKey: rapid.IntRange(0, 3).Draw(t, "nilkey") == 0,
 			})
 		}
 		dc.Lists = append(dc.Lists, list)
@@ -111,6 +116,10 @@ func runDMTCase(c *Case, env *Env) *Result {
 				switches++
 			}
 			prevField = field
+			if len(term) == 0 && dt.NilKey {
+				term = nil
+				res.probe("empty-term-as-nil-slice")
+			}
 			terms = append(terms, simTermRef{f: field, t: term})
 			desc = append(desc, fmt.Sprintf("%s:%q", field, string(term)))
 		}
@@ -123,6 +132,9 @@ func runDMTCase(c *Case, env *Env) *Result {
 		res.probeN("1-hit-term-entry", onehit)
 		if len(list) == 0 {
 			res.probe("empty-list")
+		}
+		if len(list) >= 64 {
+			res.probe("list-of-64-or-more-entries")
 		}
 		var bm *roaring.Bitmap
 		var err error
